@@ -245,6 +245,53 @@ def toy : SigScheme (List Nat) (List Nat) where
 example : (Envelope.new toy.sign toy.pk [9] [1] [2] [3]).payloadAndSigningKey toy.verify [1] [2] = .ok ([3], [9]) :=
   new_accepted toy [9] [1] [2] [3]
 
+/-! ## signature non-malleability is a law of the ideal scheme -/
+
+/-- strong unforgeability / uniqueness: under key `k` at most one signature verifies for a message -/
+def UniqueSig {S : Type} (Sg : SigScheme S K) : Prop :=
+  ∀ k m s s', Sg.verify k m s = true → Sg.verify k m s' = true → s = s'
+
+/-- under `UniqueSig`, an envelope that carries a changed signature over the same (domain, type,
+payload) and key as an accepted one is rejected (this is the clause the `sigstruct` family CHECKS
+on the real schemes: non-malleability is assumed of the ideal scheme, not proved of ed25519/RSA/ECDSA) -/
+theorem changed_signature_rejected {S : Type} (Sg : SigScheme S K) (hu : UniqueSig Sg) (e e' : Envelope K)
+    (d ty : List Nat) (hk : e'.key = e.key) (ht : e'.payloadType = e.payloadType) (hp : e'.payload = e.payload)
+    (hs : e'.signature ≠ e.signature)
+    (hacc : e.payloadAndSigningKey Sg.verify d ty = .ok (e.payload, e.key)) :
+    e'.payloadAndSigningKey Sg.verify d ty = .error .invalidSignature := by
+  obtain ⟨h1, h2, _, _⟩ := (envelope_accept_iff Sg.verify e d ty e.payload e.key).1 hacc
+  unfold Envelope.payloadAndSigningKey Envelope.verify
+  have hne : ¬ (e'.payloadType ≠ ty) := by simp [ht, h1]
+  simp only [hne, ↓reduceIte]
+  cases hv : Sg.verify e'.key (signaturePayload d e'.payloadType e'.payload) e'.signature with
+  | false => simp
+  | true =>
+    rw [hk, ht, hp] at hv
+    exact absurd (hu _ _ _ _ hv h2) hs
+
+/-- the strict Spec accepts the model of the real schemes on every observation EXCEPT the one
+malleable class (ECDSA P-256 high-S twin, the known finding `changed_signature_accepted:ecdsa_high_s`) -/
+theorem specSigstruct_model_partial (scheme variant : String) (changed : Bool)
+    (h : malleable scheme variant = false) :
+    specSigstruct changed (sigstructModel scheme variant changed).1 (sigstructModel scheme variant changed).2.1
+      (sigstructModel scheme variant changed).2.2 = true := by
+  unfold sigstructModel specSigstruct
+  cases changed <;> simp [h]
+
+/-- … and on that class the real scheme does violate the clause "any change to the signature makes
+verification fail": the model of the code accepts a changed signature, the Spec rejects that. -/
+theorem ecdsa_high_s_counterexample :
+    sigstructModel "ecdsa" "high_s" true = (true, true, true) ∧
+    specSigstruct true (sigstructModel "ecdsa" "high_s" true).1 (sigstructModel "ecdsa" "high_s" true).2.1
+      (sigstructModel "ecdsa" "high_s" true).2.2 = false := by
+  decide
+
+/-- the toy scheme is unique-signature: the hypothesis is satisfiable -/
+example : UniqueSig toy := by
+  intro k m s s' h1 h2
+  simp only [toy, beq_iff_eq] at h1 h2
+  rw [h1, h2]
+
 end C21
 
 #print axioms C21.sigpayload_injective
@@ -263,3 +310,6 @@ end C21
 #print axioms C21.specPayloadBytes_model
 #print axioms C21.specResplit_model
 #print axioms C21.resplit_sound
+#print axioms C21.changed_signature_rejected
+#print axioms C21.specSigstruct_model_partial
+#print axioms C21.ecdsa_high_s_counterexample
